@@ -46,25 +46,25 @@ BipVerdict(c) ==
        G == c.G
        b == c.back
        byid == c.flags.edge_id_attr
-   IN FirstFail(<<
-      <<"export-one-node-per-species",
+   IN AllFails(<<
+      <<"note:C16Cases:export-one-node-per-species",
           /\ Cardinality(SpNodes(G)) = Cardinality(Occurring(N))
           /\ {G.nodes[k].label : k \in SpNodes(G)} = Occurring(N)>>,
-      <<"export-one-node-per-reaction",
+      <<"note:C16Cases:export-one-node-per-reaction",
           /\ Cardinality(RxNodes(G)) = NRx(N)
           /\ Cardinality(RxNodes(G)) + Cardinality(SpNodes(G)) = Len(G.nodes)
           /\ byid => /\ {G.nodes[k].eid : k \in RxNodes(G)} = Ids(N)
                      /\ \A k \in RxNodes(G) : G.nodes[k].label = RxById(N, G.nodes[k].eid).rule>>,
-      <<"export-node-ids-distinct", Cardinality({G.nodes[k].id : k \in DOMAIN G.nodes}) = Len(G.nodes)>>,
-      <<"export-integer-ids",
+      <<"note:C16Cases:export-node-ids-distinct", Cardinality({G.nodes[k].id : k \in DOMAIN G.nodes}) = Len(G.nodes)>>,
+      <<"note:C16Cases:export-integer-ids",
           c.flags.integer_ids =>
              /\ {G.nodes[k].iid : k \in DOMAIN G.nodes} = 1..Len(G.nodes)
              /\ \A k \in SpNodes(G) : G.nodes[k].iid <= Cardinality(SpNodes(G))>>,
-      <<"export-arcs-exactly-the-incidences",
+      <<"note:C16Cases:export-arcs-exactly-the-incidences",
           byid => /\ NodesComplete(N, G, byid)
                   /\ Range(G.arcs) = ExpectedArcs(N, G)
                   /\ NoDup(G.arcs)>>,
-      <<"export-mol-labels",
+      <<"note:C16Cases:export-mol-labels",
           \A k \in SpNodes(G) :
              LET s == G.nodes[k].label IN
              IF c.flags.mol /\ s \in DOMAIN N.mol THEN G.nodes[k].mol = N.mol[s] ELSE G.nodes[k].mol = "">>,
